@@ -59,3 +59,64 @@ Definition compl (one : Z) (a : Z) : Z := b2z one (negb (truthy a)).
 Definition conv (to_bool : bool) (sa sr : Z) (a : Z) : Z :=
   if to_bool then b2z 1 (truthy a)
   else Z.quot (a * sr) sa.
+
+(** ** EV+ forests: values are integers or +infinity ([None]).
+
+    Mirrors the EV+ instantiations of the arithmetic templates
+    (src/operations/arith_*.cc with EdgeOp_plus) and of compare.cc: +infinity
+    absorbs in sums, products and maxima, is the unit of minima, and the
+    undefined cases raise SUBTRACT_INFINITY, DIVIDE_BY_ZERO and
+    INFINITY_DIV_INFINITY. *)
+Inductive everr := ESubInf | EDivZero | EInfDivInf.
+
+Definition ev_undefined (o : binop) (a b : option Z) : option everr :=
+  match o, a, b with
+  | OMinus, _, None => Some ESubInf
+  | (ODiv | OMod), _, Some 0 => Some EDivZero
+  | (ODiv | OMod), None, None => Some EInfDivInf
+  | _, _, _ => None
+  end.
+
+Definition ev_scalar2 (o : binop) (a b : option Z) : option Z :=
+  match o, a, b with
+  | OMin, None, x | OMin, x, None => x
+  | OMin, Some u, Some v => Some (Z.min u v)
+  | ODiv, Some _, None => Some 0
+  | OMod, Some u, None => Some u
+  | _, Some u, Some v => Some (scalar2 o 1 1 u v)
+  | _, _, _ => None
+  end.
+
+(** comparisons between EV+ values; the result lives in a multi-terminal
+    forest whose "true" is [one] *)
+Definition ev_compare (o : binop) (one : Z) (a b : option Z) : Z :=
+  let lt := match a, b with
+            | Some u, Some v => u <? v
+            | Some _, None => true
+            | None, _ => false
+            end in
+  let eq := match a, b with
+            | Some u, Some v => u =? v
+            | None, None => true
+            | _, _ => false
+            end in
+  match o with
+  | OEq => b2z one eq
+  | ONe => b2z one (negb eq)
+  | OLt => b2z one lt
+  | OLe => b2z one (lt || eq)
+  | OGt => b2z one (negb (lt || eq))
+  | OGe => b2z one (negb lt)
+  | _ => 0
+  end.
+
+(** COPY into an EV+ forest from a multi-terminal one (value to the integer
+    [v/sa], truncated), and out of an EV+ forest (+infinity, which the target
+    cannot represent, becomes the target's transparent value 0) *)
+Definition conv_to_ev (sa : Z) (a : Z) : option Z := Some (Z.quot a sa).
+
+Definition conv_from_ev (to_bool : bool) (sr : Z) (a : option Z) : Z :=
+  match a with
+  | None => 0
+  | Some v => if to_bool then b2z 1 (truthy v) else v * sr
+  end.
